@@ -17,6 +17,7 @@ import (
 	"github.com/resonatehq/resonate/internal/kernel/t_aio"
 	"github.com/resonatehq/resonate/internal/metrics"
 	"github.com/resonatehq/resonate/internal/util"
+	"github.com/resonatehq/resonate/internal/verifhook"
 	"github.com/resonatehq/resonate/pkg/message"
 )
 
@@ -269,6 +270,7 @@ func (w *PollWorker) Start() {
 				}
 
 				counter.Inc()
+				verifhook.Point("poll.worker.beforeProcess")
 				w.Process(mesg)
 				counter.Dec()
 			}
@@ -380,6 +382,7 @@ func (h *PollHandler) ServeHTTP(w http.ResponseWriter, r *http.Request) {
 		http.Error(w, "too many requests", http.StatusTooManyRequests)
 		return
 	}
+	verifhook.Point("poll.handler.afterConnect")
 
 	// now we can write headers and flush
 	w.Header().Set("Content-Type", "text/event-stream")
